@@ -16,7 +16,7 @@ P2  truthfulness: initial context = exactly the reported required keys; reported
 from __future__ import annotations
 
 import os
-from typing import Any, Dict, List
+from typing import Optional, Any, Dict, List
 
 from vt import shapes
 from vt.props import C01
@@ -36,7 +36,7 @@ def setup_symbolic() -> None:
 
 
 # --------------------------------------------------------------------------------------------- U1
-def _u1(in_cfg: bool, created: bool, deleted: bool, has_default: bool, v_cfg: int, v_ctx: int):
+def _u1(in_cfg: bool, created: bool, deleted: bool, has_default: bool, v_cfg: Optional[int], v_ctx: Optional[int]):
     from semantiva.context_processors import ContextType
     from semantiva.pipeline._param_resolution import inspect_origin, resolve_runtime_value
     from vt import lib
@@ -52,7 +52,7 @@ def _u1(in_cfg: bool, created: bool, deleted: bool, has_default: bool, v_cfg: in
         got = resolve_runtime_value(name="addend", processor_cls=cls, processor_config=cfg, context=ctx)
         src = "config" if in_cfg else ("context" if live else "default")
         exp = v_cfg if in_cfg else (v_ctx if live else 7)
-        if not (got == exp):
+        if not ((got is None and exp is None) if (got is None or exp is None) else (got == exp)):
             return Fail("C02.U1:runtime-value", "runtime value is not the %s value" % src)
     except KeyError:
         src = "required"
@@ -347,7 +347,7 @@ def obligations(tier: str) -> List[Ob]:
     R = C01._replay_simple
     tdesc = "Templates: all length-1, 24 curated interactions, ALL length-2 sequences over 19 node forms" + ("; thorough adds ALL length-3 sequences and a seeded draw of 400 length-4/5." if big else ".")
     return [
-        Ob("C02.U1", lambda _p: _u1, R(_u1), budget=60, bound="flags config?/created-earlier?/deleted?/default? and both values symbolic", targets=["semantiva/pipeline/_param_resolution.py:inspect_origin", "semantiva/pipeline/_param_resolution.py:resolve_runtime_value"]),
+        Ob("C02.U1", lambda _p: _u1, R(_u1), budget=60, bound="flags config?/created-earlier?/deleted?/default? and both values symbolic over int | None (a channel holding None still is that channel)", targets=["semantiva/pipeline/_param_resolution.py:inspect_origin", "semantiva/pipeline/_param_resolution.py:resolve_runtime_value"]),
         Ob("C02.U2", lambda _p: _u2, R(_u2), budget=240, bound="5 component kinds x symbolic 4-bit subset of candidate parameter names in the node config", targets=["semantiva/pipeline/_param_resolution.py:classify_unknown_config_params", "semantiva/inspection/builder.py:build_pipeline_inspection"]),
         Ob("C02.U3", lambda _p: _u3, R(_u3), budget=120, bound="5 produced types x 4 expected types (incl. subclass both ways, collection, NoDataType)", targets=["semantiva/inspection/validator.py:_is_compatible", "semantiva/pipeline/nodes/nodes.py:_DataNode._process"]),
         Ob("C02.P1", _make_p("P1"), _replay_p("P1"), params=templates(tier), budget=400 if not big else 900, per_path=60,
